@@ -1,5 +1,5 @@
-(* Model of the reply-waiter bookkeeping of icmp_forwarder.rs (IcmpSink::write, the matching part
-   of IcmpForwarder::listen, maintain_listeners). The HashMap keyed by Echo (hash = id, seq;
+(* Model of the reply-waiter bookkeeping of icmp_forwarder.rs (IcmpSink::write with a send that succeeds or fails, the
+   matching part of IcmpForwarder::listen, maintain_listeners). The HashMap keyed by Echo (hash = id, seq;
    equality = id, seq and prefix-compatible data) is an association list searched with echo_eq;
    the behaviours the code may or may not have are read from Generated/IcmpWaiterFacts.v. *)
 From Coq Require Import List NArith Bool.
@@ -7,7 +7,9 @@ From TT Require Import Lib.BytesL Model.Icmp Generated.IcmpWaiterFacts.
 Import ListNotations.
 Open Scope N_scope.
 
-Record entry := { e_key : echo_key; e_client : N }.
+(* a waiter: the key it is stored under, the client whose queue it feeds, and the instant of the deadline entry made
+   for it (ReplyWaiter::deadline) *)
+Record entry := { e_key : echo_key; e_client : N; e_deadline : N }.
 Record wstate := {
   table : list entry;
   deadlines : list (N * echo_key);         (* (instant, key) in insertion order *)
@@ -36,15 +38,37 @@ Fixpoint remove_key (t : list entry) (k : echo_key) : list entry :=
   end.
 
 (* HashMap::insert: an equal key keeps the stored key and takes the new value *)
-Fixpoint insert_key (t : list entry) (k : echo_key) (c : N) : list entry :=
+Fixpoint insert_key (t : list entry) (k : echo_key) (c dl : N) : list entry :=
   match t with
-  | [] => [{| e_key := k; e_client := c |}]
-  | e :: r => if echo_eq (e_key e) k then {| e_key := e_key e; e_client := c |} :: r
-              else e :: insert_key r k c
+  | [] => [{| e_key := k; e_client := c; e_deadline := dl |}]
+  | e :: r => if echo_eq (e_key e) k then {| e_key := e_key e; e_client := c; e_deadline := dl |} :: r
+              else e :: insert_key r k c dl
+  end.
+
+(* maintain_listeners, one expired deadline d = (instant, key): the waiter found under the key is removed if its own
+   deadline is not later than d. The deadline of an answered request stays in the list; when the same request has been
+   sent again, the waiter found is the later one and is left alone. The code this model was first written from removed
+   whatever waiter the key found (WAITER_EXPIRES_BY_ITS_OWN_DEADLINE = false). *)
+Fixpoint remove_due (t : list entry) (d : N * echo_key) : list entry :=
+  match t with
+  | [] => []
+  | e :: r =>
+    if echo_eq (e_key e) (snd d) then
+      if WAITER_EXPIRES_BY_ITS_OWN_DEADLINE && negb (e_deadline e <=? fst d) then e :: r else r
+    else e :: remove_due r d
+  end.
+
+(* IcmpSink::write after a failed send_to: the waiter found under the key is removed if it is the one just made *)
+Fixpoint remove_mine (t : list entry) (k : echo_key) (dl : N) : list entry :=
+  match t with
+  | [] => []
+  | e :: r => if echo_eq (e_key e) k then (if e_deadline e =? dl then r else e :: r)
+              else e :: remove_mine r k dl
   end.
 
 Inductive wop :=
 | WSend (c : N) (k : echo_key) (now : N)    (* the request was sent: IcmpSink::write after send_to *)
+| WSendFailed (c : N) (k : echo_key) (now : N)  (* IcmpSink::write when send_to fails (TTL 0, oversize, no route ...) *)
 | WPacket (k : echo_key)                    (* a packet whose responded_echo_request() is k *)
 | WRecv (c : N)                             (* the client reads one message from its queue *)
 | WExpire (now : N).                        (* maintain_listeners wakes up at now *)
@@ -57,7 +81,13 @@ Definition wstep (T cap : N) (s : wstate) (o : wop) : wstate * option N :=
   match o with
   | WSend c k now =>
     if WAITER_INSERTED_FOR_SENDER then
-      ({| table := insert_key (table s) k c;
+      ({| table := insert_key (table s) k c (now + T);
+          deadlines := deadlines s ++ [(now + T, k)];
+          queues := queues s |}, None)
+    else (s, None)
+  | WSendFailed c k now =>
+    if WAITER_INSERTED_FOR_SENDER then
+      ({| table := remove_mine (insert_key (table s) k c (now + T)) k (now + T);
           deadlines := deadlines s ++ [(now + T, k)];
           queues := queues s |}, None)
     else (s, None)
@@ -80,7 +110,7 @@ Definition wstep (T cap : N) (s : wstate) (o : wop) : wstate * option N :=
   | WExpire now =>
     if negb WAITERS_EXPIRED_UP_TO_NOW then (s, None) else
     let expired := filter (fun d => fst d <=? now) (deadlines s) in
-    ({| table := fold_left (fun t d => remove_key t (snd d)) expired (table s);
+    ({| table := fold_left remove_due expired (table s);
         deadlines := filter (fun d => negb (fst d <=? now)) (deadlines s);
         queues := queues s |}, None)
   end.
